@@ -24,7 +24,8 @@ def scratch(patch):
         dst = os.path.join(d, rel)
         os.makedirs(os.path.dirname(dst), exist_ok=True)
         shutil.copytree(os.path.join(REPO, rel), dst, ignore=shutil.ignore_patterns("tests", "__pycache__", "*.pyc"))
-    r = subprocess.run(["git", "apply", "--exclude=*/tests/*", os.path.abspath(patch)], cwd=d, capture_output=True, text=True)
+    # only the analysed directories exist in the scratch copy: parts of a patch that touch other files (change logs, docs) are left out
+    r = subprocess.run(["git", "apply", "--exclude=*/tests/*"] + ["--include=%s/*" % rel.split("/")[0] for rel in ANALYSED] + [os.path.abspath(patch)], cwd=d, capture_output=True, text=True)
     if r.returncode != 0:
         shutil.rmtree(d, ignore_errors=True)
         return None, r.stderr[-300:]
